@@ -144,6 +144,7 @@ def no_diversion(ctx: Ctx):
     ctx.check(not bad, "D4", "CMP.no-diversion", "ServicingPoolingTrip.exit succeeds iff the plan is finished or the next activity is a pooling re-plan", fn,
               why_bad=f"differs on {bad[:3]}", construct="ServicingPoolingTrip.exit:table")
     refusal_honoured(ctx)
+    ctx.attempt(rules.rule_activity_writes, ctx, "D4")  # an activity written outside enter() never asks the trip's exit
     # terminal condition of ServicingTrip is the same predicate
     sc = states.state_class(repo, "ServicingTrip")
     t = repo.method(sc.cls, "_has_reached_terminal_state_condition")
